@@ -224,3 +224,17 @@ def captured_stdout():
         yield buf
     finally:
         sys.stdout = old
+
+
+def die_with_parent():
+    """called in a forked child: the kernel kills it when its parent goes away (a worker killed by the shard timeout must not leave
+    its case process running)"""
+    try:
+        import ctypes
+        import signal
+
+        ctypes.CDLL("libc.so.6", use_errno=True).prctl(1, int(signal.SIGKILL), 0, 0, 0)  # PR_SET_PDEATHSIG
+        if os.getppid() == 1:
+            os._exit(1)
+    except Exception:
+        pass
